@@ -77,7 +77,19 @@ func c17(r *Run) {
 		// ---- R1 hand-off --------------------------------------------------------------------------
 		isTrigRead := func(x ssa.Instruction) bool { return atomicOn(x, "Load", fTrigger) }
 		ss := &Search{Fn: worker, Stop: isTrigRead}
-		wit := ss.Find([]Start{After(rel)}, func(x ssa.Instruction) bool { _, ok := x.(*ssa.Call); return ok && !isTrigRead(x) && asAtomic(x) == nil }, true)
+		wit := ss.Find([]Start{After(rel)}, func(x ssa.Instruction) bool {
+			// anything of the queue's own machinery before the re-read (foreach, deal, flush, a state change) is too early;
+			// calls into other packages (logging, formatting) are irrelevant
+			if c, ok := x.(*ssa.Call); ok {
+				if cal := c.Call.StaticCallee(); cal != nil && cal.Pkg != nil && isModulePkg(cal.Pkg.Pkg) {
+					return true
+				}
+				if a := asAtomic(c); a != nil && !isTrigRead(x) && a.Op != "Load" {
+					return true
+				}
+			}
+			return false
+		}, true)
 		r.Visited += ss.Visited
 		r.obW("C17.R1:reread-after-release"+ordinal(i), "after Store(runNum,0) the worker's first action is to re-read the trigger counter: an Add whose foreach() found the flag still set relies on this re-check", worker, rel, wit, "Load(trigger) directly after the release")
 		ss2 := &Search{Fn: worker, Stop: isTrigRead}
